@@ -595,10 +595,16 @@ def dialog_history(rng, block, n_dialogs=None, n_backends=None, opts=None):
                 p = {"e": e, "hs": hs, "ua": None, "method": method, "callid": d["callid"], "frm": frm, "to": to, "totag": None}
                 f.backend_response(p, code=r.choice([100, 200, 200, 481, 488, 491, 603]), from_backend=d["answered"], add_to_tag=False)
             if method == b"BYE" and r.random() < 0.7 and d.get("answered"):
-                # the backend answers the BYE: the dialog is over
+                # the backend answers the BYE with ANY final status: the dialog is over, the pin dissolved; a few more
+                # requests bearing the dialog's identifiers follow (they are load-balanced like new ones)
                 p = {"e": e, "hs": hs, "ua": None, "method": b"BYE", "callid": d["callid"], "frm": frm, "to": to, "totag": None}
-                f.backend_response(p, code=200, from_backend=d["answered"], add_to_tag=False)
-                d["state"] = 3
+                f.backend_response(p, code=r.choice([200, 200, 481, 408, 500, 603]), from_backend=d["answered"], add_to_tag=False)
+                d["answered"] = None
+                d["after_bye"] = r.randrange(0, 4)
+            if "after_bye" in d:
+                d["after_bye"] -= 1
+                if d["after_bye"] < 0:
+                    d["state"] = 3
         if d["state"] == 3:
             dialogs.remove(d)
             if not dialogs:
